@@ -4,3 +4,10 @@ use super::*;
 pub(crate) fn seed_of(r: &Rng) -> u64 {
     r.seed
 }
+/// one step of a fresh generator started from `seed`: (new state, value) -- the unit harnesses in
+/// harness/core/random.rs decide this function against the documented recurrence for every seed
+pub(crate) fn one_step_from(seed: u64) -> (u64, f64) {
+    let mut r = Rng::new(seed);
+    let v = r.random();
+    (r.seed, v)
+}
